@@ -289,7 +289,10 @@ func c09Phase1(c *explore.Ctx, seq []int, cas func() any) (*c09Hist, int) {
 }
 
 // c09Phase2 restarts a fresh broker on the store as it was after k journal commands.
-func c09Phase2(c *explore.Ctx, h *c09Hist, k int, cas0 func() any) {
+// resend: the publisher retransmits the QoS 2 PUBLISH packets that await PUBREL before
+// completing them (true) or goes straight to PUBREL, as a client that had received
+// PUBREC before the crash does (false).
+func c09Phase2(c *explore.Ctx, h *c09Hist, k int, cas0 func() any, resend bool) {
 	crash := int64(math.MaxInt64)
 	if k < len(h.journal) {
 		crash = h.journal[k].Stamp
@@ -297,6 +300,7 @@ func c09Phase2(c *explore.Ctx, h *c09Hist, k int, cas0 func() any) {
 	cas := func() any {
 		m := cas0().(map[string]any)
 		m["crash_after_commands"] = k
+		m["publisher_retransmits_publish_after_restart"] = resend
 		m["journal_length"] = len(h.journal)
 		if k > 0 {
 			m["last_command_before_crash"] = h.journal[k-1].String()
@@ -387,8 +391,10 @@ func c09Phase2(c *explore.Ctx, h *c09Hist, k int, cas0 func() any) {
 		}
 		// 4. QoS2 identifiers awaiting PUBREL: resend, must get PUBREC, must not be forwarded again
 		var resent []*c09Msg
+		var PP, SS *harness.Client
 		if before(h.connack[c09Pub]) {
 			P := w.Dial("P")
+			PP = P
 			ack := P.Connect(harness.ConnectOpts{ClientID: c09Pub, Clean: false, Version: refmqtt.V5, Props: &refmqtt.Props{SessionExpiry: harness.U32(3600)}})
 			if ack == nil || ack.Code != 0 || !ack.SessionPresent {
 				c.Violate("session-survives", "publisher-session-not-resumed", cas(), "Session Present 1", fmt.Sprint(ack))
@@ -396,6 +402,10 @@ func c09Phase2(c *explore.Ctx, h *c09Hist, k int, cas0 func() any) {
 			}
 			for _, m := range h.msgs {
 				if m.qos == 2 && before(m.pubAck) && !(m.pubrel != 0 && m.pubrel < crash) {
+					if !resend {
+						resent = append(resent, m)
+						continue
+					}
 					P.Send(&refmqtt.Packet{Type: refmqtt.PUBLISH, Topic: "t", QoS: 2, Dup: true, PacketID: m.pid, Payload: []byte(m.payload)})
 					vsched.Settle()
 					if stampOf(P, refmqtt.PUBREC, m.pid) == 0 {
@@ -409,6 +419,7 @@ func c09Phase2(c *explore.Ctx, h *c09Hist, k int, cas0 func() any) {
 		// 3. redelivery to the subscriber
 		if before(h.connack[c09Sub]) {
 			S := w.Dial("S")
+			SS = S
 			ack := S.Connect(harness.ConnectOpts{ClientID: c09Sub, Clean: false, Version: refmqtt.V5, Props: &refmqtt.Props{SessionExpiry: harness.U32(3600)}})
 			if ack == nil || ack.Code != 0 {
 				c.Violate("session-survives", "subscriber-reconnect-refused", cas(), "CONNACK", fmt.Sprint(ack, w.Closeds))
@@ -466,6 +477,41 @@ func c09Phase2(c *explore.Ctx, h *c09Hist, k int, cas0 func() any) {
 				}
 			}
 		}
+		// 5. the restarted broker completes the open QoS 2 flows and then treats their
+		// identifiers as free again: PUBREL -> PUBCOMP, and a new message sent under the same
+		// identifier is forwarded (not taken for a duplicate of the pre-crash one)
+		if PP != nil && SS != nil && (have[c09Sub+"|t"] || have[c09Sub+"|$share/g/t"]) {
+			for _, m := range resent {
+				PP.Send(&refmqtt.Packet{Type: refmqtt.PUBREL, PacketID: m.pid})
+				vsched.Settle()
+				if stampOf(PP, refmqtt.PUBCOMP, m.pid) == 0 {
+					c.Violate("qos2-dedup", "pubrel-after-restart-not-completed", cas(), fmt.Sprintf("PUBCOMP(%d)", m.pid), "none")
+					return
+				}
+				SS.Recv()
+				fresh := fmt.Sprintf("fresh-%d", m.pid)
+				PP.Send(&refmqtt.Packet{Type: refmqtt.PUBLISH, Topic: "t", QoS: 2, PacketID: m.pid, Payload: []byte(fresh)})
+				vsched.Settle()
+				PP.Send(&refmqtt.Packet{Type: refmqtt.PUBREL, PacketID: m.pid})
+				vsched.Settle()
+				n := 0
+				for _, r := range SS.Recv() {
+					if r.P != nil && r.P.Type == refmqtt.PUBLISH && string(r.P.Payload) == fresh {
+						n++
+						if r.P.QoS == 1 {
+							SS.Send(&refmqtt.Packet{Type: refmqtt.PUBACK, PacketID: r.P.PacketID})
+						} else if r.P.QoS == 2 {
+							SS.Send(&refmqtt.Packet{Type: refmqtt.PUBREC, PacketID: r.P.PacketID})
+						}
+					}
+				}
+				vsched.Settle()
+				if n == 0 {
+					c.Violate("qos2-dedup", "identifier-of-a-flow-completed-after-restart-still-taken-for-a-duplicate", cas(), "new message under the completed identifier forwarded", fmt.Sprintf("%s not forwarded (acknowledged to the publisher: %v)", fresh, stampOf(PP, refmqtt.PUBCOMP, m.pid) != 0))
+					return
+				}
+			}
+		}
 		if p := w.SwallowedPanic(); p != "" {
 			c.Violate("no-panic", "recovered-after-restart: "+trimTo(p, 90), cas(), "no panic", p)
 		}
@@ -506,15 +552,24 @@ func c09Run(c *explore.Ctx, seq []int) int {
 	}
 	c.Count("journal_commands", int64(len(h.journal)))
 	c.Count("distinct_nontrivial", int64(len(h.journal)))
+	qos2 := false
+	for _, m := range h.msgs {
+		if m.qos == 2 {
+			qos2 = true
+		}
+	}
 	for k := 0; k <= len(h.journal); k++ {
-		c09Phase2(c, h, k, cas)
+		c09Phase2(c, h, k, cas, true)
+		if qos2 {
+			c09Phase2(c, h, k, cas, false)
+		}
 	}
 	return applied
 }
 
 func runC09(c *explore.Ctx) {
 	c.Level = "fault_enumeration"
-	c.Rule = "E4: client histories (two persistent v5 sessions: subscribe incl. a shared filter with subscription id, unsubscribe, QoS1/QoS2 publishes, PUBREL, subscriber ack steps, disconnect/reconnect) are enumerated as a tree (directed prefix + depth) on a real in-process broker using the redis persistence backend over an in-process RESP server that journals every write command with a logical stamp. For EVERY prefix of the journal (a crash between two storage commands) the store is rebuilt, a fresh broker is started on it, and checked: start-up succeeds; sessions whose CONNACK was sent before the crash exist under their id; subscriptions equal the SUBACK/UNSUBACK-acknowledged ones; publisher-acknowledged, subscriber-unacknowledged QoS>0 messages are redelivered on Clean Start 0; QoS2 ids awaiting PUBREL are still recognised. evaluations = restarted brokers; distinct_nontrivial = journal commands (distinct crash points)."
+	c.Rule = "E4: client histories (two persistent v5 sessions: subscribe incl. a shared filter with subscription id, unsubscribe, QoS1/QoS2 publishes, PUBREL, subscriber ack steps, disconnect/reconnect) are enumerated as a tree (directed prefix + depth) on a real in-process broker using the redis persistence backend over an in-process RESP server that journals every write command with a logical stamp. For EVERY prefix of the journal (a crash between two storage commands) the store is rebuilt, a fresh broker is started on it, and checked: start-up succeeds; sessions whose CONNACK was sent before the crash exist under their id; subscriptions equal the SUBACK/UNSUBACK-acknowledged ones; publisher-acknowledged, subscriber-unacknowledged QoS>0 messages are redelivered on Clean Start 0; QoS2 ids awaiting PUBREL are still recognised, their flows complete on the restarted broker (PUBREL -> PUBCOMP) and a new message under the completed identifier is forwarded. evaluations = restarted brokers; distinct_nontrivial = journal commands (distinct crash points)."
 	c.Trusted = []string{"respd: fidelity to redis for the 14 commands gmqtt issues (implemented from the command reference; real redis is not installed)", "vsched default schedule, logical stamps ordering storage commands and packets"}
 	c.Assumptions = []string{"redis executes each command atomically, so crash points are command boundaries (pipelined commands are split)", "an operation whose acknowledgement had not been sent before the crash may be in either state"}
 	if rc := replayCase(c); rc != nil {
